@@ -35,7 +35,7 @@ from .common import (
     UnknownTopicOrPartitionError,
     UnsupportedCodecError,
 )
-from .kafkacodec import _SUPPORTED_CODECS, create_message_set
+from .kafkacodec import _SUPPORTED_CODECS, KafkaCodec, create_message_set
 from .partitioner import RoundRobinPartitioner
 from twisted.internet.defer import CancelledError as tid_CancelledError
 from twisted.internet.defer import Deferred, DeferredList, fail, inlineCallbacks, returnValue, succeed
@@ -341,6 +341,13 @@ class Producer(object):
         We've determined the partition for each message group in the batch, or
         got errors for them.
         """
+        if self.client._api_versions is None:
+            # The message format depends on the produce version the broker
+            # supports: wait for version discovery before building messages
+            d = self.client.get_api_version(KafkaCodec.PRODUCE_KEY)
+            d.addCallback(lambda _: self._send_requests(parts_results, requests))
+            return d
+
         # We use these dictionaries to be able to combine all the messages
         # destined to the same topic/partition into one request
         # the messages & deferreds, both by topic+partition
